@@ -80,7 +80,10 @@ var gCells = guardRef{"boc:parseBocHeader", "(boc.readNBytesUIntFromArray()>len(
 var gPruned = guardRef{"boc:newImmutableCell", "lin:1,-272;-16"}
 var gCellLen = guardRef{"boc:deserializeCellData", "(len(φcellData)<(…+(referenceIndexSize*_)))"}
 var gImportDepth = guardRef{"boc:bagOfCells.importCell", "(depth>1024)"}
-var gParseDepth = guardRef{"boc:DeserializeBoc", "(*make[φi]>1024)"}
+
+// the parser's depth limit: the test of a cell's slot in the depth slice, or of the local that the slot is written
+// from (E1.P5-depth-compute decides that the tested quantity is the cell's real depth in either form)
+var gParseDepth = guardRef{"boc:DeserializeBoc", "(*make[φi]>1024) ∥ (φdepth>1024)"}
 
 var excC07 = map[string]excEntry{
 	// ---- BitString internals: index n/8 with n < cap (checkRange) or n = len/rCursor
